@@ -835,6 +835,11 @@ static int set_ca(struct tls_config *cfg, int ca, int mem)
 		p = bio_to_pem(b);
 		rv = tls_config_set_ca_mem(cfg, (uint8_t *)p.p, p.n);
 		free(p.p);
+		/* ca_mem has priority in tls_configure_ssl_verify; ca_file is still what
+		 * tls_configure_server reads the client-CA name list from -- keep that off the
+		 * system bundle (parsing ~150 certificates per session dominates the run time) */
+		if (rv == 0)
+			rv = tls_config_set_ca_file(cfg, path);
 		return rv;
 	}
 	return tls_config_set_ca_file(cfg, path);
@@ -985,8 +990,6 @@ static void do_hs(char **w, int n)
 			o = (e == &C) ? &S : &C;
 			ei = e == &S;
 			if (blocked[ei] && o->phase < PH_DONE && !blocked[!ei] && rnd(8) != 0)
-				continue;
-			if (blocked[ei] && blocked[!ei] && rnd(8) != 0 && 0)
 				continue;
 			run = 1 + rnd(P.burst);
 			while (run-- > 0 && e->phase < PH_DONE) {
